@@ -14,6 +14,8 @@ directly about the generated `compute_iou` (`gen_iou_range_symm`, `gen_iou_self_
 
 set_option linter.unusedSectionVars false
 set_option linter.unusedSimpArgs false
+set_option linter.unusedTactic false
+set_option linter.unreachableTactic false
 
 namespace SleapVerif.TranslatedC10
 open SleapVerif.Oks SleapVerif.TrackFeatures SleapVerif.Gen.TranslatedC10
@@ -26,17 +28,18 @@ theorem gen_compute_iou_eq_model (a b : Box R) :
     compute_iou a.1 a.2.1 a.2.2.1 a.2.2.2 b.1 b.2.1 b.2.2.1 b.2.2.2 = scoreIou a b := by
   obtain ⟨x1, y1, X1, Y1⟩ := a
   obtain ⟨x2, y2, X2, Y2⟩ := b
-  rfl
+  simp only [compute_iou, scoreIou, iou, tMax, tMin, Oks.maxR, Oks.minR] <;> (first | rfl | ring_nf)
 
 /-- `compute_euclidean_distance` is the model's `scoreEuclid` (the *negative* distance) -/
 theorem gen_compute_euclidean_distance_eq_model (sqrt : R → R) (a b : R × R) :
-    compute_euclidean_distance sqrt a.1 a.2 b.1 b.2 = scoreEuclid sqrt a b := rfl
+    compute_euclidean_distance sqrt a.1 a.2 b.1 b.2 = scoreEuclid sqrt a b := by
+  simp only [compute_euclidean_distance, scoreEuclid, TrackFeatures.dist2] <;> (first | rfl | ring_nf)
 
 /-- `compute_cosine_sim` on 2-vectors is the model's `scoreCosine` -/
 theorem gen_compute_cosine_sim_eq_model (sqrt : R → R) (a b : R × R) :
     compute_cosine_sim sqrt a.1 a.2 b.1 b.2 = scoreCosine sqrt a b := by
   simp only [compute_cosine_sim, scoreCosine, cosine, dot, sumR, List.zipWith_cons_cons,
-    List.zipWith_nil_right, List.foldr_cons, List.foldr_nil, add_zero]
+    List.zipWith_nil_right, List.foldr_cons, List.foldr_nil, add_zero] <;> (first | rfl | ring_nf)
 
 /-- `get_bbox` = `[xmin, ymin, xmax, ymax]` of the model's `bbox` (NaN as soon as a column has no
 visible entry), `get_centroid` = the model's `centroid` (column-wise `nanmedian`) -/
